@@ -73,14 +73,15 @@ func hasStr(xs []string, s string) bool {
 }
 
 // buildLayout lays the content out as the abstract layout says.
-func buildLayout(c *content, l *absLayout) *refmcap.BFile {
+func buildLayout(c *content, l *absLayout, salt int) *refmcap.BFile {
 	f := &refmcap.BFile{Profile: c.profile, Library: c.library, Schemas: c.schemas, Channels: c.channels, SummaryOrder: l.Summary,
 		MessageIndex: l.MsgIdx, SummaryOffsets: l.SumOffs, CRC: l.CRC, Pad: l.Pad, SummaryUnknown: map[string][]refmcap.Unknown{}}
 	f.DefsUpFront = l.Data.Defs == "upfront" || l.Data.Defs == "both"
 	u := func(k int) refmcap.Unknown {
 		ops := []byte{0x10, 0x7f, 0x80, 0xff}
 		lens := []int{0, 1, 40}
-		return refmcap.Unknown{Op: ops[k%4], Body: bytes.Repeat([]byte{0xEE}, lens[k%3])}
+		// opcode and body length (0, 1, 40) of every insertion vary with the layout's index, so that each position sees each shape
+		return refmcap.Unknown{Op: ops[(k+salt)%4], Body: bytes.Repeat([]byte{0xEE}, lens[(k+salt/4)%3])}
 	}
 	if hasStr(l.Unknown, "top0") {
 		x := u(0)
@@ -194,6 +195,7 @@ func lrun(args []string) error {
 	reads := fs.Int("reads", 3, "random read specs per layout")
 	nAbs := fs.Int("nmsgs", 3, "abstract messages per content (NMsgs of the model)")
 	cseedFlag := fs.Int64("cseed", 0, "replay: content seed")
+	salt0 := fs.Int("salt", 0, "replay: index of the layout in its original run (shapes of the inserted records depend on it)")
 	fs.Parse(args)
 	b, err := os.ReadFile(*in)
 	if err != nil {
@@ -245,7 +247,7 @@ func lrun(args []string) error {
 			end = len(layouts)
 		}
 		for k := g; k < end; k++ {
-			built, err := refmcap.Build(buildLayout(c, &layouts[k]))
+			built, err := refmcap.Build(buildLayout(c, &layouts[k], k+*salt0))
 			if err != nil {
 				return err
 			}
